@@ -116,6 +116,8 @@ class VerifyOpaque(Contract):
 
 
 CONTRACTS = [VerifyOpaque]
+for _k in CONTRACTS:
+    _k.replay_decides = False  # MD5 / hexlify are uninterpreted functions
 BOUNDED = bounded("C48")
 _SCOPE = ("real DigestCredentialFactory (twisted.cred and twisted.web._auth.digest) with a pinned clock and random source: "
           "challenge/response histories (right / wrong password, issued / tampered / forged nonce and opaque, same / other "
